@@ -102,11 +102,12 @@ def run_hard(case, res, reuse=None, rng=None):
         # "existing edges keep positive weight" - however small: some pairings the network already has get a weight near 1e-9
         # (next to explicit zeros this is where a rule that floors or rounds weights starts to manufacture forbidden pairings)
         tiny = 0
+        tiny_scale = rng.choice([1e-9, 1e-9, 1e-14, 1e-30])
         for t in names:
             for k in list(T[t]):
                 if T[t][k] > 0 and present[t].get(k, 0) > 0 and rng.random() < 0.6:
                     half = len(k) // 2
-                    w = T[t][k] * 1e-9
+                    w = T[t][k] * tiny_scale
                     T[t][k] = w
                     if k[half:] + k[:half] in T[t]:
                         T[t][k[half:] + k[:half]] = w
@@ -227,6 +228,8 @@ def run_approach(case, res):
     k = rng.choice([3, 3, 4]) if case["ids"] == "shuffled" else 3
     pool = [(5, 1), (3, 2), (1, 3), (2, 1), (4, 2), (1, 1)] if fam == "c2c3" else [(4, 1), (2, 2), (1, 1), (3, 1)]
     classes = rng.sample(pool, k) if case["ids"] == "shuffled" else [(5, 1), (3, 2), (1, 3)]
+    if case["ids"] == "shuffled" and case.get("variant") is None and case["seed"] % 2 == 0:
+        classes = classes[:-1] + [(0, 2)]       # vertices that are in triangles (4-cliques) only: the topologies' supports differ in width
     N = rng.randint(300, 450)
     tkind, lam, frac, assort = "assortative", 0.8, 0.75, 0.4
     if case.get("variant") == "short-disassortative":
